@@ -170,6 +170,12 @@ pub fn c01_key(f: &Finding, p: &Program, _o: &Outcome) -> Option<String> {
             let exp: Vec<Option<String>> = serde_json::from_str(&f.expected).unwrap_or_default();
             let exp_n = exp.len();
             if got.len() > exp_n {
+                // `select !{…}` over a relation known only through its wildcard, for a dialect without `* EXCLUDE`:
+                // the exclusion is dropped (`SELECT * FROM t`)
+                let open_except = main_frames(p).iter().any(|(fr, s)| matches!(s, Step::SelectExcept(_)) && !fr.open.is_empty());
+                if open_except && f.sql.contains('*') && !f.sql.contains("EXCLUDE") && !f.sql.contains("EXCEPT") {
+                    return Some("exclusion-over-open-relation-ignored-without-exclude-facility".into());
+                }
                 // columns the compiler carries for its own use (generated helpers, hidden sort keys, a group key
                 // listed next to the wildcard that already holds it — SQLite labels the repeat `name:1`) come
                 // out of a final `SELECT *`
@@ -179,7 +185,9 @@ pub fn c01_key(f: &Finding, p: &Program, _o: &Outcome) -> Option<String> {
                 for n in &got {
                     if let Some(i) = exp_names.iter().position(|e| e == n) {
                         exp_names.remove(i);
-                    } else if helper_name(n) || n.starts_with("_expr_") || n.contains(':') || keys.contains(n) {
+                    } else if helper_name(n) || n.starts_with("_expr_") || n.contains(':') || keys.contains(n) || exp.iter().flatten().any(|e| e == n) {
+                        // (the last case: a name of the frame once more than the frame has it — the explicit key
+                        // next to the wildcard that holds it, seen without SQLite's `:1` label)
                         extras += 1;
                     }
                 }
@@ -188,6 +196,16 @@ pub fn c01_key(f: &Finding, p: &Program, _o: &Outcome) -> Option<String> {
                 }
             }
             if got.len() < exp_n {
+                // `* EXCLUDE (a)` / `* EXCEPT (a)` removes a carried column by name — and with it a column of the
+                // frame that has the same name
+                for kw in ["EXCLUDE (", "EXCEPT ("] {
+                    if let Some(i) = f.sql.find(kw) {
+                        let list = f.sql[i + kw.len()..].split(')').next().unwrap_or("");
+                        if list.split(',').map(|x| x.trim().trim_matches('"').trim_matches('`')).any(|n| exp.iter().flatten().any(|e| e == n)) {
+                            return Some("wildcard-exclusion-by-name-drops-same-named-column".into());
+                        }
+                    }
+                }
                 // an unnamed computed column (`select {a, a + 1}`) is gone after a later `group … (… take n)`
                 let fr = main_frames(p);
                 let unnamed_then_group_take = fr.iter().enumerate().any(|(k, (_, s))| {
@@ -357,7 +375,7 @@ pub fn names_key(f: &Finding, p: &Program, _o: &Outcome) -> Option<String> {
         return Some("same-name-twice-in-select-merged".into());
     }
     // an alias that re-used a column name, and a final `SELECT *` over the sub-query that holds both
-    if shadowing_alias(p) && f.sql.contains("SELECT *") {
+    if shadowing_alias(p) && (f.sql.contains("SELECT *") || (f.sql.contains("DISTINCT ON") && f.sql.contains('*'))) {
         return Some("alias-reusing-existing-name-emitted-under-helper-name".into());
     }
     // every misnamed column carries a generated helper name
